@@ -3,6 +3,7 @@ package main
 import (
 	"fmt"
 	"go/token"
+	"go/types"
 	"sort"
 	"strings"
 
@@ -116,6 +117,27 @@ func (pf *PosFlow) Of(v ssa.Value, at ssa.Instruction, depth int) PosAV {
 			}
 		}
 		return PosAV{{kind: "unknown", desc: "arithmetic"}}
+	case *ssa.Field:
+		// a field of a token held by value (`p.expect("ADD").Pos` where expect returns token.Token)
+		if w.isTokenStruct(x.X.Type()) {
+			if st, ok := x.X.Type().Underlying().(*types.Struct); ok && x.Field < st.NumFields() {
+				name := st.Field(x.Field).Name()
+				if name == "Pos" || name == "End" {
+					kind := "start"
+					if name == "End" {
+						kind = "end"
+					}
+					_, srcs := pf.tk.tokenSources(x.X)
+					var out PosAV
+					for _, s := range srcs {
+						out = append(out, PosAlt{kind: kind, fact: pf.tk.FactOf(s, at), src: s})
+					}
+					if len(out) > 0 {
+						return out
+					}
+				}
+			}
+		}
 	case *ssa.UnOp:
 		if x.Op != token.MUL {
 			break
